@@ -1,8 +1,10 @@
 import CandidModel.Wire
+import CandidModel.Proofs.CoerceSound
 /-
   C04 — Accepted subtyping means decoding at the supertype cannot fail.
-  (first instalment: the mechanism lemmas about `Wire.coerce`; the full soundness theorem
-  `Sub t t' → v : t → coerce t t' v succeeds` is work in progress, see DESIGN.md)
+  Mechanism lemmas about `Wire.coerce`, the μ-opt witness, and the soundness theorem on the specification side:
+  `Sub w e → v canonical at w → coerce w e v` returns a value (or runs out of its depth budget) — helper lemmas in
+  Proofs/CoerceSound.lean.
 -/
 namespace Candid.Props.C04
 open Candid Candid.Wire
@@ -70,5 +72,37 @@ theorem mu_opt_witness :
     coerce env true env 50 (.prim .bool) (.var "O") (.bool true) = .ok .none ∧
     coerce env false env 50 (.prim .bool) (.var "O") (.bool true) = .err .limit := by
   constructor <;> rfl
+
+/-- **Accepted subtyping means the coercion cannot fail** (specification side: decode, then coerce).  For every
+environment whose definitions resolve and are data types with distinct field ids, every pair `w <: e` of the
+specification relation over it and every canonical value of `w`: the coercion `v : w ~> _ : e` returns a value — the
+only other outcome is an exhausted depth budget; it never reports a subtype failure, a malformed value or a panic.
+Reference types included (their check is the subtype checker, which never rejects a pair of the relation, C05). -/
+theorem coercion_of_a_subtype_value_never_fails (env : Env) (hg : GoodEnv env) (fuel : Nat) (w e : Ty) (v : Val) (n : Nat)
+    (hw : goodTy env w = true) (he : goodTy env e = true) (hc : canon env n v w = true) (hs : Sub.Sub env w e) :
+    Snd (coerce env true env fuel w e v) :=
+  coerce_sound env hg fuel w e v n hw he hc hs
+
+/-- without the subtyping hypothesis the coercion of a canonical value still ends regularly: a value, a subtype
+failure (what an enclosing option turns into `null`), or an exhausted budget -/
+theorem coercion_ends_regularly (env : Env) (hg : GoodEnv env) (fuel : Nat) (w e : Ty) (v : Val) (n : Nat)
+    (hw : goodTy env w = true) (he : goodTy env e = true) (hc : canon env n v w = true) :
+    Reg (coerce env true env fuel w e v) :=
+  coerce_regular env hg fuel w e v n hw he hc
+
+/-- with what the checker says (C05): whenever the subtype check accepts `w <: e`, the coercion of every canonical
+value of `w` to `e` cannot fail -/
+theorem accepted_by_the_checker_means_coercion_cannot_fail (env : Env) (hg : GoodEnv env) (k fuel : Nat) (g' : Sub.Gamma)
+    (w e : Ty) (v : Val) (n : Nat) (hw : goodTy env w = true) (he : goodTy env e = true) (hc : canon env n v w = true)
+    (hacc : Sub.subAlg env k [] w e = .yes g') : Snd (coerce env true env fuel w e v) := by
+  have hsw : Sub.safeTy env w = true := by simp only [goodTy, Bool.and_eq_true] at hw; exact hw.1
+  have hse : Sub.safeTy env e = true := by simp only [goodTy, Bool.and_eq_true] at he; exact he.1
+  exact coerce_sound env hg fuel w e v n hw he hc
+    (Sub.subAlg_sound_history env hg.1 k [] g' w e hsw hse (Sub.justified_nil env) hacc).1
+
+/-- non-vacuity: `record {0 : nat} <: record {0 : int; 1 : opt text}` on a value -/
+example : canon [] 5 (.record [(.id 0, .nat 7)]) (.record (.cons (.id 0) (.prim .nat) .nil)) = true ∧
+    goodTy [] (.record (.cons (.id 0) (.prim .int) (.cons (.id 1) (.opt (.prim .text)) .nil))) = true := by
+  constructor <;> decide
 
 end Candid.Props.C04
